@@ -9,6 +9,7 @@ fn main() {
         "C36" => e2_index::c36(&args),
         "C26" => e5_c26::c26(&args),
         "C24" | "C25" => e2_hnsw::run(&args),
+        "C34" => e2_rules::c34(&args),
         "C31" => e5::c31(&args),
         "C28" => e5::c28(&args),
         "C11" => e2_store::c11(&args),
